@@ -267,6 +267,18 @@ def maybe_size(alts, keep_all):
     return max(sum(kept(x) for x in alt) for alt in alts)
 
 
+def maybe_json(alts, keep_all):
+    """the body as the Lean `rule_size` op reads it"""
+    def kept(sym):
+        k = sym[0]
+        if k == 't': return bool(keep_all or not sym[1].startswith('_'))
+        if k == 'lit': return bool(keep_all)
+        if k == 'nt': return not sym[1].startswith('_')
+    def one(sym):
+        return {'maybe': maybe_json(sym[1], keep_all)} if sym[0] == 'maybe' else {'s': kept(sym)}
+    return {'alt': [{'seq': [one(x) for x in alt]} for alt in alts]}
+
+
 def render_maybe(alts):
     def r(sym):
         return '[' + render_maybe(sym[1]) + ']' if sym[0] == 'maybe' else sym[1]
@@ -281,7 +293,7 @@ def _maybe_case(seed):
     bang = rng.random() < 0.4
     kat = (not bang) and rng.random() < 0.2
     g = '%sstart: [%s] E\nr: C\n_i: C C\nE: "e"\n' % ('!' if bang else '', render_maybe(alts)) + ''.join('%s: %s\n' % kv for kv in TERMS.items()) + '%ignore " "\n'
-    out = {'grammar': g, 'keep_all_tokens': kat, 'expected_nones': maybe_size(alts, bang or kat), 'got': {}}
+    out = {'grammar': g, 'keep_all_tokens': kat, 'expected_nones': maybe_size(alts, bang or kat), 'got': {}, 'body': maybe_json(alts, bang or kat)}
     for parser in ('lalr', 'earley'):
         try:
             with guarded(8):
@@ -296,7 +308,21 @@ def check_maybe(ctx, res, salt, n_quick, n_thorough):
     from common import pmap, tier_scale, exc_in_lark, InfraError
     rng = random.Random(ctx['seed'] * 1000003 + salt)
     seeds = [rng.randrange(1 << 30) for _ in range(tier_scale(ctx['tier'], n_quick, n_thorough) * (3 if ctx['deepen'] else 1))]
-    for seed, (st, rec) in zip(seeds, pmap(_maybe_case, seeds, chunksize=8)):
+    outs = pmap(_maybe_case, seeds, chunksize=8)
+    # the expected count comes from the Lean model of FindRuleSize (`size`, proved equal to the longest alternative's kept symbols)
+    from common import run_driver
+    idx = [i for i, (st, rec) in enumerate(outs) if st == 'ok']
+    model = dict(zip(idx, run_driver([{'op': 'rule_size', 'body': outs[i][1]['body']} for i in idx])))
+    for i, (seed, (st, rec)) in enumerate(zip(seeds, outs)):
+        if st == 'ok':
+            m = model[i]
+            if 'error' in m:
+                raise InfraError('driver rule_size: %s' % m)
+            if m['size'] != m['longest']:
+                res.corr_break('driver: size differs from longest(alts) (theorem placeholder_count_is_longest_alternative)', {'body': rec['body']})
+            if m['size'] != rec['expected_nones']:
+                raise InfraError('the harness\'s own sizing (%d) and the Lean model (%d) differ on %r' % (rec['expected_nones'], m['size'], rec['body']))
+    for seed, (st, rec) in zip(seeds, outs):
         if st != 'ok':
             if st == 'exc' and not exc_in_lark(rec):
                 raise InfraError(rec)
